@@ -2721,3 +2721,124 @@ func ruleNodesBelongToOneGraph(w *World, r *Report, rule string) {
 		r.OK(rule, "graph#nodes-belong-to-one-graph", token.NoPos, false, "%d store(s) into the node table of a graph other than the receiver, each of a node made for that graph", sites)
 	}
 }
+
+// ruleTrackedAfterPublication: a scope is entered into two tables (its parent's
+// children, the provider's scopes) in two critical sections. From the moment it is
+// in the first it can be closed by that table's owner - whose Close removes it from
+// the other table, where it is not yet. The second insertion must therefore
+// re-check, inside its own critical section, that the scope has not been closed
+// meanwhile (a test of the scope's own disposed flag between the Lock and the
+// insertion); otherwise a closed scope stays tracked until the provider closes.
+func ruleTrackedAfterPublication(w *World, r *Report, rule string) {
+	flag := w.Field(w.Godi, "scope", "disposed")
+	isScopeTable := func(info *types.Info, e ast.Expr) *types.Var {
+		fv := fieldOf(info, e)
+		if fv == nil {
+			return nil
+		}
+		m, ok := fv.Type().Underlying().(*types.Map)
+		if !ok || !isNamedType(m.Key(), modPath, "scope") {
+			return nil
+		}
+		switch ownerOfFieldRaw(w, fv) {
+		case "scope", "provider":
+			return fv
+		}
+		return nil
+	}
+	sites, second, bad := 0, 0, 0
+	for _, fi := range w.FuncsOf(w.Godi) {
+		info := fi.Pkg.TypesInfo
+		type ins struct {
+			node ast.Node
+			tbl  *types.Var
+			x    types.Object
+			pos  token.Pos
+		}
+		var all []ins
+		fl := w.FlowOf(fi)
+		for _, n := range fl.Nodes() {
+			as, ok := n.(*ast.AssignStmt)
+			if !ok {
+				continue
+			}
+			for _, l := range as.Lhs {
+				ix, isIx := unparen(l).(*ast.IndexExpr)
+				if !isIx {
+					continue
+				}
+				if tbl := isScopeTable(info, ix.X); tbl != nil {
+					if x := objOf(info, ix.Index); x != nil && !w.isReceiver(x) {
+						all = append(all, ins{n, tbl, x, as.Pos()})
+					}
+				}
+			}
+		}
+		if len(all) == 0 {
+			continue
+		}
+		sites += len(all)
+		may := fl.Solve(Spec{Must: false, Node: func(n ast.Node, in Facts) (gen, kill []string) {
+			for _, i := range all {
+				if i.node == n {
+					gen = append(gen, "published:"+i.x.Name()+":"+i.tbl.Name())
+				}
+			}
+			return
+		}})
+		for _, i := range all {
+			earlier := ""
+			for k := range may.Before[i.node] {
+				if strings.HasPrefix(k, "published:"+i.x.Name()+":") && !strings.HasSuffix(k, ":"+i.tbl.Name()) {
+					earlier = strings.TrimPrefix(k, "published:"+i.x.Name()+":")
+				}
+			}
+			if earlier == "" {
+				continue
+			}
+			second++
+			// the last Lock() before the insertion, in source order
+			var lockPos token.Pos
+			for _, c := range callsIn(fi.Decl.Body, false) {
+				if _, _, op, ok := mutexOp(info, c); ok && op == "Lock" && c.Pos() < i.pos && c.Pos() > lockPos {
+					lockPos = c.Pos()
+				}
+			}
+			guarded := false
+			conds, _ := controllingCondsInfo(info, fi.Decl.Body, i.pos)
+			for _, cd := range conds {
+				if cd.Pos() < lockPos {
+					continue
+				}
+				ast.Inspect(cd, func(y ast.Node) bool {
+					if sel, ok := y.(*ast.SelectorExpr); ok && flag != nil && fieldOf(info, sel) == flag && objOf(info, sel.X) == i.x {
+						guarded = true
+					}
+					// x.isDisposed() / x.closed(): a one-line predicate over the flag
+					if c, ok := y.(*ast.CallExpr); ok {
+						if rcv, _, isM := methodCall(c); isM && objOf(info, rcv) == i.x {
+							if t := w.Decls[callee(info, c)]; t != nil && t.Decl.Body != nil && len(t.Decl.Body.List) == 1 && flag != nil && usesObj(t.Pkg.TypesInfo, t.Decl.Body, flag) {
+								guarded = true
+							}
+						}
+					}
+					return true
+				})
+			}
+			con := fmt.Sprintf("%s#tracked-after-publication:%s/%s", fi.Name(), i.x.Name(), i.tbl.Name())
+			if !guarded {
+				bad++
+			}
+			r.Check(guarded, rule, con, i.pos, true,
+				fmt.Sprintf("%s is entered into %s after it was published in %s, and its own disposed flag is tested inside this critical section first", i.x.Name(), i.tbl.Name(), earlier),
+				fmt.Sprintf("%s enters %s into %s after it was already reachable through %s, without testing, inside this critical section, that it has not been closed meanwhile: the owner of %s may have closed it (its Close removed it from %s, where it was not yet), and a closed scope stays tracked - reachable, never released - until the provider is closed", fi.Name(), i.x.Name(), i.tbl.Name(), earlier, earlier, i.tbl.Name()))
+		}
+	}
+	if sites == 0 {
+		r.Fail(rule, "godi#scope-tables", token.NoPos, "no insertion of a scope into a tracking table found")
+		return
+	}
+	if second == 0 {
+		r.OK(rule, "godi#scope-tables:single", token.NoPos, false, "%d insertion(s) of scopes into tracking tables, none of a scope that was already published in another table", sites)
+	}
+}
